@@ -38,8 +38,10 @@ WORKSPACES = {
     },
     "WC_submodules": {
         "m.f90": "module cm\n  implicit none\n  interface\n    module subroutine cs1(a)\n      integer :: a\n    end subroutine cs1\n    module function cf2(b) result(r)\n      real :: b, r\n    end function cf2\n  end interface\nend module cm\n",
-        "s1.f90": "submodule (cm) csm1\n  implicit none\n  integer :: chidden\ncontains\n  module subroutine cs1(a)\n    integer :: a\n    a = chidden\n  end subroutine cs1\nend submodule csm1\n",
-        "s2.f90": "submodule (cm:csm1) csm2\n  implicit none\ncontains\n  module procedure cf2\n    r = b + chidden\n  end procedure cf2\nend submodule csm2\n",
+        # the direct submodule implements with the short form (its dummy arguments exist only in the
+        # parent's interface), the sub-submodule with the full form
+        "s1.f90": "submodule (cm) csm1\n  implicit none\n  integer :: chidden\ncontains\n  module procedure cs1\n    a = chidden\n  end procedure cs1\nend submodule csm1\n",
+        "s2.f90": "submodule (cm:csm1) csm2\n  implicit none\ncontains\n  module function cf2(b) result(r)\n    real :: b, r\n    r = b + chidden\n  end function cf2\nend submodule csm2\n",
     },
     "WD_generic_include": {
         "g1.f90": "module dg1\n  implicit none\ncontains\n  subroutine dsi(x)\n    integer :: x\n  end subroutine dsi\n  subroutine dsr(x)\n    real :: x\n  end subroutine dsr\nend module dg1\n",
